@@ -138,6 +138,23 @@ def check(rep, tier, seed):
         odd = {l: rng.choice(["grp=%s", "%s=", "=%s", "a=b=%s", "pop %s", "#%s", "%s:1", "0%s", "==%s=="]) % l for l in dict.fromkeys(l for _, l in sm)}
         mc = "create 0 %s %s - %s" % (",".join(cols), model_samples(sm), model_records(recs))
         jobs.append((["create", "-s", ",".join("%s=%s" % (n, odd[l]) for n, l in sm)], render_vcf(cols, recs))); mcases.append(mc); metas.append("inline-odd-labels:" + mc)
+    # a sample listed MORE THAN ONCE with the same label is one sample (the axis lengths count samples, not list entries),
+    # inline and in a samples file
+    for k in range(8 if tier == "quick" else 60):
+        cols, recs = random_callset(rng, nsamples=rng.randrange(2, 7), p_skip=0.1)
+        sm = random_map(rng, cols, allow_unnamed=False)
+        if not sm:
+            continue
+        sm2 = list(sm)
+        for _ in range(rng.randrange(1, 4)):
+            sm2.insert(rng.randrange(len(sm2) + 1), rng.choice(sm))
+        mc = "create 0 %s %s - %s" % (",".join(cols), model_samples(sm2), model_records(recs))
+        if k % 2 == 0:
+            jobs.append((["create"] + cli_samples_arg(sm2), render_vcf(cols, recs))); mcases.append(mc); metas.append("repeated-sample-entries:" + mc)
+        else:
+            path = os.path.join(WORK, "c01_dup_%d.txt" % k)
+            open(path, "wb").write(samples_file_bytes(sm2))
+            jobs.append((["create", "-S", path], render_vcf(cols, recs))); mcases.append(mc); metas.append("repeated-sample-entries-file:" + mc)
     # a samples file beyond 64 KiB (about a thousand samples with long names): every line of it counts
     ncol = 1000
     bcols = ["sample_%04d_%s" % (i, "x" * 56) for i in range(ncol)]
